@@ -23,15 +23,44 @@ static void prop(Tape &t, Ctx &c) {
     auto cand = suites_for(ver); const Suite su = cand[t.below(cand.size())];
     int kind = (int) t.below(3); if (kind == 1 && su.auth == AUTH_PSK) kind = 0;
     bool dt = is_dtls(ver);
+    // TLS 1.3 resumption with 0-RTT: early-data records, EndOfEarlyData and the handshake flight are sealed under three different
+    // keys whose sequence numbers are reset at different moments
+    bool early = kind == 2 && ver == TLS13 && t.chance(2, 3); int n_early = early ? 1 + (int) t.below(3) : 0;
     int nact = 2 + (int) t.below(10); std::vector<int> acts; for (int i = 0; i < nact; i++) acts.push_back((int) t.below(A_N));
     uint32_t es = t.u16();
     std::string as; for (int a : acts) { as += act_name[a]; as += ","; }
-    std::string desc = fmt("%s %s kind=%d acts=[%s]", ver_name(ver), su.name, kind, as.c_str());
+    std::string desc = fmt("%s %s kind=%d early-data-records=%d acts=[%s]", ver_name(ver), su.name, kind, n_early, as.c_str());
     c.sample(desc); if (c.verbose) fprintf(stderr, "case: %s\n", desc.c_str());
     vfh_entropy_reset(300 + es); vfh_clock_set_ms(1000000); vfh_ledger_reset();
     std::vector<Bytes> draws; g_draws = &draws; g_entropy_seen = 0; vfh_entropy_tap = tap;
     struct Untap { ~Untap() { vfh_entropy_tap = nullptr; g_draws = nullptr; } } untap;
 
+    // every AEAD seal so far: (key, nonce) unique, counters increasing per key.  Also evaluated when the handshake does not complete:
+    // a nonce collision usually shows up to the peer as a bad record MAC, i.e. as a failed handshake
+    unsigned retrans = 0;
+    auto check_ledger = [&]() {
+        std::map<std::pair<uint64_t, std::string>, const vfh_seal_t *> seen; std::map<uint64_t, std::vector<const vfh_seal_t *>> per_key; retrans = 0;
+    for (unsigned i = 0; i < vfh_ledger_n; i++) {
+        const vfh_seal_t &e = vfh_ledger[i];
+        VF_CHECK(e.alg != 3, "gcm-encrypt-without-fresh-nonce", "psAesEncryptGCM called without a preceding psAesReadyGCM (nonce %s reused implicitly); %s", hex(e.nonce, 12).c_str(), desc.c_str());
+        auto k = std::make_pair(e.key_id, std::string((const char *) e.nonce, 12));
+        auto it = seen.find(k);
+        if (it != seen.end()) {
+            bool same = it->second->aad_h == e.aad_h && it->second->pt_h == e.pt_h && it->second->pt_len == e.pt_len;
+            VF_CHECK(same && dt, "aead-nonce-reused-under-key", "nonce %s used twice under one key for %s records (pt lens %u/%u, aad %s / %s); %s", hex(e.nonce, 12).c_str(), same ? "identical (allowed for DTLS retransmission only)" : "DIFFERENT", it->second->pt_len, e.pt_len, hex(it->second->aad, 13).c_str(), hex(e.aad, 13).c_str(), desc.c_str());
+            retrans++;
+        } else seen[k] = &e;
+        per_key[e.key_id].push_back(&e);
+    }
+    // per key, sequence numbers strictly increase (TLS). TLS 1.2 GCM / ChaCha(1.2): last 8 nonce bytes (resp. xor with first) form the counter.
+    if (!dt) for (auto &kv : per_key) {
+        const auto &v = kv.second; if (v.size() < 2) continue;
+        uint64_t prev = 0; bool first = true; unsigned char base[12]; memcpy(base, v[0]->nonce, 12);
+        for (auto *e : v) { uint64_t s = 0; for (int i = 4; i < 12; i++) s = s << 8 | (uint8_t) (e->nonce[i] ^ ((su.tls13 || e->alg == 2) ? base[i] : 0));
+            if (!first) VF_CHECK(s > prev, "sequence-number-not-increasing-under-key", "nonce counter went %llu -> %llu under one key; %s", (unsigned long long) prev, (unsigned long long) s, desc.c_str());
+            prev = s; first = false; }
+    }
+    };
     sslSessionId_t *sid = nullptr; struct SG { sslSessionId_t *&s; ~SG() { if (s) matrixSslDeleteSessionId(s); } } sg{ sid };
     std::vector<Bytes> cwire, swire;   // everything each side emitted (units)
     auto grab = [&](Endpoint &e, std::vector<Bytes> &w) { e.pump_out(); if (e.dtls) { for (auto &d : e.dgram_out) w.push_back(d); } else if (!e.wire_out.empty()) w.push_back(e.wire_out); };
@@ -41,12 +70,13 @@ static void prop(Tape &t, Ctx &c) {
             grab(p.s, swire); if (p.s.dtls) { while (!p.s.dgram_out.empty()) { Bytes x = p.s.dgram_out.front(); p.s.dgram_out.pop_front(); if (drop_next) { drop_next = false; continue; } if (p.c.ssl) p.c.feed_dgram(x); mv = true; } } else if (!p.s.wire_out.empty()) { Bytes x = p.s.take_wire(); if (p.c.ssl && !p.c.failed) p.c.feed(x); mv = true; }
             if (!mv) break; } };
     auto mk = [&](Pair &p, sslSessionId_t *s) { Config cc, sc; cc.client = true; sc.client = false; cc.versions = sc.versions = { ver }; cc.suites = { su.id }; cc.auth = sc.auth = su.auth; cc.entropy_stream = 1; sc.entropy_stream = 2;
-        cc.client_auth = sc.client_auth = kind == 1; sc.cert_cb = cb_strict; cc.sid = s; return p.s.open(sc) >= 0 && p.c.open(cc) >= 0; };
+        cc.client_auth = sc.client_auth = kind == 1; sc.cert_cb = cb_strict; cc.sid = s; if (early) sc.max_early_data = 16384; return p.s.open(sc) >= 0 && p.c.open(cc) >= 0; };
     if (kind == 2) { if (matrixSslNewSessionId(&sid, NULL) < 0) throw Discard{}; Pair p0; if (!mk(p0, sid)) throw Discard{}; settle(p0); if (!(p0.c.hs_complete() && p0.s.hs_complete())) throw Discard{}; }
     Pair p; if (!mk(p, sid)) throw Discard{};
+    if (early) { p.c.sel(); if (matrixSslGetMaxEarlyData(p.c.ssl) > 0) { for (int i = 0; i < n_early; i++) { Bytes m(20 + 31 * i, (uint8_t) (0x41 + i)); p.c.send(m, 1); } c.count("tls13-early-data-sent"); } else c.count("tls13-early-data-not-offered"); }
     settle(p);
     if (dt) for (int r = 0; r < 6 && !(p.c.hs_complete() && p.s.hs_complete()); r++) { p.c.dtls_timeout(); p.s.dtls_timeout(); settle(p); }
-    if (!(p.c.hs_complete() && p.s.hs_complete())) { c.count("handshake-incomplete"); throw Discard{}; }
+    if (!(p.c.hs_complete() && p.s.hs_complete())) { c.count("handshake-incomplete"); check_ledger(); throw Discard{}; }
     Endpoint &A = t.coin() ? p.c : p.s; Endpoint &B = (&A == &p.c) ? p.s : p.c;
     unsigned cbc_records_checked = 0; int mi = 0;
     auto amsg = [&](size_t n) { Bytes b(n); for (size_t i = 0; i < n; i++) b[i] = (uint8_t) (mi * 17 + i); mi++; return b; };
@@ -78,28 +108,7 @@ static void prop(Tape &t, Ctx &c) {
     // ---- ledger invariants
     if (c.verbose) for (unsigned i = 0; i < vfh_ledger_n; i++) fprintf(stderr, "  seal[%u] key=%016llx nonce=%s ptlen=%u pth=%016llx alg=%d aad=%s pt0=%02x\n", i, (unsigned long long) vfh_ledger[i].key_id, hex(vfh_ledger[i].nonce, 12).c_str(), vfh_ledger[i].pt_len, (unsigned long long) vfh_ledger[i].pt_h, vfh_ledger[i].alg, hex(vfh_ledger[i].aad, 13).c_str(), vfh_ledger[i].pt0);
     VF_CHECK(vfh_ledger_overflow == 0, "harness-ledger-overflow", "ledger overflow");
-    std::map<std::pair<uint64_t, std::string>, const vfh_seal_t *> seen; std::map<uint64_t, std::vector<const vfh_seal_t *>> per_key;
-    unsigned retrans = 0;
-    for (unsigned i = 0; i < vfh_ledger_n; i++) {
-        const vfh_seal_t &e = vfh_ledger[i];
-        VF_CHECK(e.alg != 3, "gcm-encrypt-without-fresh-nonce", "psAesEncryptGCM called without a preceding psAesReadyGCM (nonce %s reused implicitly); %s", hex(e.nonce, 12).c_str(), desc.c_str());
-        auto k = std::make_pair(e.key_id, std::string((const char *) e.nonce, 12));
-        auto it = seen.find(k);
-        if (it != seen.end()) {
-            bool same = it->second->aad_h == e.aad_h && it->second->pt_h == e.pt_h && it->second->pt_len == e.pt_len;
-            VF_CHECK(same && dt, "aead-nonce-reused-under-key", "nonce %s used twice under one key for %s records (pt lens %u/%u, aad %s / %s); %s", hex(e.nonce, 12).c_str(), same ? "identical (allowed for DTLS retransmission only)" : "DIFFERENT", it->second->pt_len, e.pt_len, hex(it->second->aad, 13).c_str(), hex(e.aad, 13).c_str(), desc.c_str());
-            retrans++;
-        } else seen[k] = &e;
-        per_key[e.key_id].push_back(&e);
-    }
-    // per key, sequence numbers strictly increase (TLS). TLS 1.2 GCM / ChaCha(1.2): last 8 nonce bytes (resp. xor with first) form the counter.
-    if (!dt) for (auto &kv : per_key) {
-        const auto &v = kv.second; if (v.size() < 2) continue;
-        uint64_t prev = 0; bool first = true; unsigned char base[12]; memcpy(base, v[0]->nonce, 12);
-        for (auto *e : v) { uint64_t s = 0; for (int i = 4; i < 12; i++) s = s << 8 | (uint8_t) (e->nonce[i] ^ ((su.tls13 || e->alg == 2) ? base[i] : 0));
-            if (!first) VF_CHECK(s > prev, "sequence-number-not-increasing-under-key", "nonce counter went %llu -> %llu under one key; %s", (unsigned long long) prev, (unsigned long long) s, desc.c_str());
-            prev = s; first = false; }
-    }
+    check_ledger();
     // CBC: explicit IV blocks on the wire are pairwise distinct and never equal an earlier ciphertext block of the same direction
     if (!su.aead && !su.tls13) for (auto *w : { &cwire, &swire }) {
         std::set<std::string> ivs, blocks; 
